@@ -334,6 +334,25 @@ pub fn mutate_tensor(rng: &mut Rng, fs: &mut Vec<Field>) -> String {
     let info = tensor_info(fs);
     let esz = elem_size(info.dtype) as u64;
     let n_real: u64 = if let Some(r) = info.raw_len { r as u64 / esz.max(1) } else { (info.n_float + info.n_int32 + info.n_int64 + info.n_double) as u64 };
+    // Shapes whose extent computation wraps to a small number if any step of it
+    // is done with wrapping arithmetic, paired with a data length near that number:
+    // (a-1)*b*c is a multiple of 2^64, so only b*c-ish elements seem to be needed.
+    if rng.chance(1, 12) {
+        let (a, rest): (i64, Vec<i64>) = match rng.below(4) {
+            0 => ((1i64 << 62) + 1, vec![2, 2]),
+            1 => ((1i64 << 62) + 1, vec![4, 2]),
+            2 => ((1i64 << 61) + 1, vec![8]),
+            _ => ((1i64 << 60) + 1, vec![4, 4]),
+        };
+        let inner: i64 = rest.iter().product();
+        let n = rng.urange(0, inner as usize + 1);
+        let mut d = vec![a];
+        d.extend(rest);
+        set_dims(fs, &d.iter().map(|x| *x as u64).collect::<Vec<u64>>(), false);
+        fs.retain(|f| !matches!(f.num, 4 | 5 | 7 | 9 | 10 | 11 | 13 | 14));
+        fs.push(Field::bytes(9, &vec![0x40; n * esz.max(1) as usize]));
+        return format!("wrap_crafted_dims_data={}of{}", n, inner);
+    }
     match rng.below(14) {
         0..=4 => {
             let (d, name) = hostile_dims(rng, n_real, &info.dims);
